@@ -12,6 +12,7 @@ From Verif Require Import Sni.SchedSkel Sni.Shutdown Sni.ShutdownProofs Sni.Shut
 From Verif Require Import Sni.ShutdownEndpoint Sni.ShutdownEndpointProofs.
 From Verif Require Import Sni.DialSkel Sni.ShutdownDial Sni.ShutdownDialProofs Sni.ShutdownDialGen Gen.DialSkel.
 From Verif Require Sni.Mailbox Sni.MailboxProofs Sni.ShutdownSide.
+From Verif Require Import Sni.ShutdownClose Sni.ShutdownCloseProofs.
 Import ListNotations.
 Local Open Scope N_scope.
 
@@ -346,6 +347,53 @@ Proof.
         (conj gen_mailboxCleanUp_frozen (conj gen_mailboxDiscard_frozen (conj gen_sideWait_arms gen_serveBackSide_frozen)))))))))))))))).
 Qed.
 Print Assumptions C04_dial_source_shape.
+
+(** ** endpointClient.Close (kick, ServeBackName's defer) reaches c.conn.Close()
+    within its time-out (Sni/ShutdownClose.v; the blocking points of
+    transport.shutdown are read off the source) *)
+
+(** Once the time-out has expired Close runs through to c.conn.Close() by its
+    own steps alone, from every state: whether the endpoint's shutdown hint
+    came first (the call is refused with errAlreadyShutdown) or not, whether
+    the peer answers the shutdown request or is silent for ever. *)
+Theorem C04_close_reaches_conn_close : forall n s,
+  wf_pc gen_clpoints s -> l_ctx s = true -> l_pc s <> QDone -> (cl_measure gen_clpoints s <= n)%nat ->
+  exists acts s', forallb cl_own acts = true /\ (List.length acts <= n)%nat /\
+    clexec gen_clpoints s acts = Some s' /\ l_pc s' = QDone /\ l_conn_closed s' = true.
+Proof. exact (close_reaches_conn_close gen_clpoints gen_shutdown_points_timed). Qed.
+Print Assumptions C04_close_reaches_conn_close.
+
+(** From the start, for each of the four combinations {hint first | not} x
+    {peer answers | silent}: the time-out and at most (points + 2) steps. *)
+Theorem C04_close_bounded_from_start : forall hint silent,
+  exists acts s', (List.length acts <= List.length gen_clpoints + 3)%nat /\
+    clexec gen_clpoints (clinit hint silent) acts = Some s' /\ l_pc s' = QDone /\ l_conn_closed s' = true.
+Proof. exact (close_bounded_from_start gen_clpoints gen_shutdown_points_timed). Qed.
+Print Assumptions C04_close_bounded_from_start.
+
+(** The seeded change C04-h, kept as a counter-model: a bare [<-tr.serveDone]
+    on the path of a refused call.  The hint came first, the peer is silent:
+    Close waits there for ever and c.conn.Close() is never called. *)
+Theorem C04_close_untimed_refuted :
+  points_timed untimed_points = false /\
+  exists s, clexec untimed_points (clinit true true) [QCallRet] = Some s /\ stuck_close s /\
+    forall acts s', ~ In (QSkip 0) acts -> clexec untimed_points s acts = Some s' ->
+      stuck_close s' /\ l_conn_closed s' = false.
+Proof. exact close_untimed_refuted. Qed.
+Print Assumptions C04_close_untimed_refuted.
+
+Theorem C04_close_source_shape :
+  points_timed gen_clpoints = true /\
+  (points_of "endpointClient.Close" gen_transport_blocking = [] /\
+   points_of "transport.startShutdown" gen_transport_blocking = [] /\
+   gen_clpoints = [[ARecv "ctx.Done()"; ARecv "tr.serveDone"]])%string /\
+  skel_is gen_transport_skel "endpointClient.Close" frozen_clientClose = true /\
+  skel_is gen_transport_skel "transport.startShutdown" frozen_startShutdown = true.
+Proof.
+  exact (conj gen_shutdown_points_timed (conj gen_close_waits_nowhere_else
+        (conj gen_clientClose_frozen gen_startShutdown_frozen))).
+Qed.
+Print Assumptions C04_close_source_shape.
 
 (** The pinned tree's configuration, kept as a counter-model: serve exits,
     closeAll's tunnel.Close enqueues its call and is never enabled again, so
